@@ -77,6 +77,11 @@ def make_case(seed: int, tier: str, prop: str, opts=None) -> Dict[str, Any]:
         if rng.random() < 0.6:
             V["stub"] = "stub"
             V["transport"] = rng.choice(["gated", "stock"])
+    if rng.random() < 0.3:
+        # the simulator offers extra methods and the scenario script calls them after the start
+        names = rng.sample(["setup", "done", "set", "calibrate"], rng.choice([1, 2, 3]))
+        V["extra_methods"] = names
+        V["extra_calls"] = [[nm, rng.choice([1, "x", None])] for nm in names]
     twin = None
     if V.get("cfg_api") is not None and V["transport"] in ("gated", "stock") and rng.random() < 0.5:
         # a second instance started from the *same* sim config entry (same explicit api_version),
@@ -217,6 +222,15 @@ def run_case(case, prop) -> Dict[str, Any]:
                     viols.append({"kind": "max_advance_sent_to_old_api", "features": feats,
                                   "detail": {"sim": V, "raw": h}})
                     break
+        # ---- extra methods reach the simulator whatever its version, and their results come back
+        for nm, arg in V.get("extra_calls", ()):
+            st["extra_method_calls"] = st.get("extra_method_calls", 0) + 1
+            got_call = any(h[0] == "extra" and h[1] == sid and h[2] == nm for h in r.hist)
+            res = next((h[4] for h in r.hist if h[0] == "extra_result" and h[1] == sid and h[2] == nm), "<none>")
+            if not got_call or res != f"{sid}.{nm}({arg})":
+                viols.append({"kind": "extra_method_call_lost", "features": dict(feats, method=nm),
+                              "detail": {"sim": V, "received": got_call, "result": res}})
+                break
         if v >= [2, 2] and not any(h[0] == "begin" and h[1] == "setup_done" and h[2] == sid for h in r.hist) \
                 and oc[0] == "ok":
             viols.append({"kind": "setup_done_missing", "features": feats, "detail": {"sim": V}})
